@@ -21,6 +21,7 @@ fn main() {
         Some("masks") => masks_h::cases(&args[2], &args[3]),
         Some("masks-random") => masks_h::random(&args[2], args[3].parse().unwrap()),
         Some("pin-histories") => pinning_h::histories(&args[2], &args[3], &args[4]),
+        Some("pin-idrace") => pinning_h::idrace(&args[2], args[3].parse().unwrap()),
         Some("pin-subsets") => pinning_h::subsets(&args[2], &args[3], args[4].parse().unwrap(), args[5].parse().unwrap()),
         Some("inventory") => inventory_h::cases(&args[2], &args[3]),
         Some("inventory-random") => inventory_h::random(&args[2], args[3].parse().unwrap()),
